@@ -1125,3 +1125,50 @@ def item_index_rule(rep, F, FW):
                      "the column-size record announces num_vars + num_rand_vars - 1 entries", "it announces `%s`" % render(args[0]))
     if n_k < 2:
         t8.fail("record|k|count", short_loc(g.loc), "column-size headers not found")
+
+    # --- column sizes: 'k' cumulative, 'K' plain ---------------------------------------------------
+    cw = [x for x in FW.funcs if x.qn == NLW + "::ColSizeWriter::Write" and not x.is_dependent()]
+    if not cw:
+        raise AnalysisBroken("C03.T8: ColSizeWriter::Write not found")
+    sw = [n for n in cw[0].walk() if n["k"] == "SwitchStmt"]
+    secs = switch_sections(sw[0]) if sw else {}
+    def printed(seq):
+        for st in seq:
+            for c in walk(st):
+                if c["k"] in ("CXXMemberCallExpr", "CallExpr") and (c.get("callee") or "").split("::")[-1] == "apr":
+                    return render(call_args(c)[2]).replace("this->", "").strip(), c
+        return None, None
+    p1, c1 = printed(secs.get(1, []))
+    p2, c2 = printed(secs.get(2, []))
+    acc = [n for st in secs.get(1, []) for n in walk(st) if n["k"] == "CompoundAssignOperator" and n.get("op") == "+=" and
+           render(kids(n)[0]).replace("this->", "").strip() == "sum_" and render(kids(n)[1]).strip() == "s"]
+    okc = p1 == "sum_" and len(acc) == 1 and c1 is not None and cw[0].cfg.dominates(acc[0], c1)
+    t8.check(okc, "column-sizes|cumulative", short_loc(cw[0].loc), "kind 1 ('k'): the running sum is updated with the column size and then printed",
+             "kind 1 prints `%s`, accumulation found: %d" % (p1, len(acc)))
+    t8.check(p2 == "s", "column-sizes|plain", short_loc(cw[0].loc), "kind 2 ('K'): the column size itself is printed", "kind 2 prints `%s`" % p2)
+    # --- suffix records -----------------------------------------------------------------------------
+    for nm_ in ("StartIntSuffix", "StartDblSuffix"):
+        g = [x for x in FW.funcs if x.qn == NLW + "::SuffixWriterFactory::" + nm_ and not x.is_dependent()]
+        if not g:
+            raise AnalysisBroken("C03.T8: %s not found" % nm_)
+        ap = aprs(g[0])
+        okr = len(ap) == 1 and ap[0][1] and all(x.startswith("S%d %d %s") for x in ap[0][1]) and \
+            [render(x).strip() for x in ap[0][2]] == ["kind", "nnz", "name"]
+        t8.check(okr, "suffix-record|%s" % nm_, short_loc(g[0].loc), "suffix header `S<kind> <n> <name>` carries kind, count and name in this order",
+                 "arguments %s" % ([render(x) for x in ap[0][2]] if ap else "missing"))
+    pl = {}
+    for x in FW.funcs:
+        if x.qn.startswith(NLW + "::PLSOSWriter::Start") and x.name not in pl:
+            for c in x.walk():
+                if c["k"] not in ("CXXMemberCallExpr", "CallExpr") or not kids(c):
+                    continue
+                cal = (c.get("callee") or "").split("::")[-1] or (strip(kids(c)[0]).get("name") or "")
+                if cal in ("StartIntSuffix", "StartDblSuffix"):
+                    a = call_args(c) if c.get("callee") else kids(c)[1:]
+                    lit = next((y.get("v") for y in walk(a[0]) if y["k"] == "StringLiteral"), None)
+                    pl[x.name] = (cal, lit, cv(a[1]))
+    wantp = {"StartSOSVars": ("StartIntSuffix", "sos", 0), "StartSOSCons": ("StartIntSuffix", "sos", 1),
+             "StartSOSREFVars": ("StartDblSuffix", "sosref", 4)}
+    for k_, v_ in wantp.items():
+        t8.check(pl.get(k_) == v_, "plsos|%s" % k_, short_loc(cw[0].loc), "%s writes suffix %s with kind %d (%s)" % (k_, v_[1], v_[2], v_[0]),
+                 "%s writes %s" % (k_, pl.get(k_)))
